@@ -123,7 +123,7 @@ func registerSeqMulti(id string, mk func(tier string) []*seqProp, quick, thoroug
 func init() {
 	// C01 — RFC 6902 result (v5)
 	registerSeqMulti("C01", func(tier string) []*seqProp {
-		first := &AlphaCfg{InteriorNeg: true}
+		first := &AlphaCfg{InteriorNeg: true, Values: append(append([]*rj.Value(nil), patchValues...), longValue)}
 		second := &AlphaCfg{Values: []*rj.Value{patchValues[0], patchValues[2], patchValues[3], patchValues[5], patchValues[6]}, MaxFroms: 8} // 1, null, {}, {"k":null}, [null]; 8 move/copy sources
 		p := &seqProp{ID: "C01", Docs: Dq, Opts: optsNeg(defaultOpt), Depth: 2, Alpha: []*AlphaCfg{first, second},
 			Judge: func(r *seqRun) { judgeResult(r, false) },
